@@ -342,7 +342,8 @@ def switch_cond(body, bb):
             decl = callee_decl(ct)
             if decl in CMP_CALLS and len(ct["args"]) == 2:
                 return {"kind": "cmp", "rel": CMP_CALLS[decl], "a": ct["args"][0], "b": ct["args"][1], "neg": neg,
-                        "site": ("call", o.data), "by_ref": True, "callee": callee_name(ct)}
+                        "site": ("call", o.data), "by_ref": True, "callee": callee_name(ct),
+                        "targs": [a for a in ct["callee"].get("args", []) if not a.startswith("'")]}
             return {"kind": "boolcall", "bb": o.data, "name": callee_name(ct), "decl": decl, "args": ct["args"],
                     "neg": neg}
         return {"kind": "expr", "neg": neg, "origins": origins}
@@ -449,6 +450,22 @@ def _decision_key(body, bb):
     return None
 
 
+def _guards_debug_assert(body, sbb):
+    """The switch is the test of a `debug_assert*!`: one of its edges leads straight into the macro's panic."""
+    for (t, lab) in body.succ[sbb]:
+        x = t
+        for _ in range(3):
+            term = body.blocks[x].term
+            ms = term.get("macros") or []
+            if term["t"] == "call" and term.get("target") is None and any(m.startswith("debug_assert") for m in ms):
+                return True
+            nxt = body.succ[x]
+            if len(nxt) != 1:
+                break
+            x = nxt[0][0]
+    return False
+
+
 def required_outcomes(facts, body, target_bb, include_debug=False, skip_try=True):
     """For every switch that constrains reaching `target_bb`: (switch_bb, cond, set(outcomes)): every feasible path from
     the entry to target_bb leaves that switch through one of `outcomes`. Feasibility treats switches that test the same
@@ -490,7 +507,7 @@ def required_outcomes(facts, body, target_bb, include_debug=False, skip_try=True
     res = []
 
     def keep(sbb, cond):
-        if not include_debug and (is_debug_only(body.blocks[sbb].term) or cond.get("debug_only")):
+        if not include_debug and (is_debug_only(body.blocks[sbb].term) or cond.get("debug_only") or _guards_debug_assert(body, sbb)):
             return False
         if skip_try and is_try_switch(body, cond):
             return False
